@@ -19,6 +19,7 @@ import (
 	"go/token"
 	"os"
 	"path/filepath"
+	"regexp"
 	"sort"
 	"strconv"
 	"strings"
@@ -69,6 +70,13 @@ func execEvalFlags(e ast.Expr) (int, error) {
 		}
 	}
 	return 0, fmt.Errorf("cannot evaluate call-flag expression")
+}
+
+var execRecv = regexp.MustCompile(`\b\w+\.(State|HasFinally|HasCatch)\b`)
+
+// execCond prints a condition on an exception-handling frame with the frame variable renamed to `e`.
+func execCond(fset *token.FileSet, e ast.Node) string {
+	return execRecv.ReplaceAllString(execExprString(fset, e), "e.$1")
 }
 
 func execExprString(fset *token.FileSet, e ast.Node) string {
@@ -401,7 +409,7 @@ func genExecFacts(repo string) (string, error) {
 	if fd := execFunc(vmF, "ContractHasTryBlock"); fd != nil {
 		ast.Inspect(fd.Body, func(n ast.Node) bool {
 			if is, ok := n.(*ast.IfStmt); ok && execMentions(is.Cond, "State") {
-				hasTryConds = append(hasTryConds, execExprString(fset, is.Cond))
+				hasTryConds = append(hasTryConds, execCond(fset, is.Cond))
 			}
 			return true
 		})
@@ -410,7 +418,7 @@ func genExecFacts(repo string) (string, error) {
 	if fd := execFunc(vmF, "handleException"); fd != nil {
 		ast.Inspect(fd.Body, func(n ast.Node) bool {
 			if is, ok := n.(*ast.IfStmt); ok && execMentions(is.Cond, "State") {
-				skipConds = append(skipConds, execExprString(fset, is.Cond))
+				skipConds = append(skipConds, execCond(fset, is.Cond))
 			}
 			return true
 		})
@@ -445,7 +453,7 @@ func genExecFacts(repo string) (string, error) {
 		return "[" + strings.Join(q, ", ") + "]"
 	}
 	fmt.Fprintf(&b, "/-- contract/call.go callExFromNative: `wrapped := %s`; the flag mask in it. -/\n", wrapExpr)
-	fmt.Fprintf(&b, "def wrapExpr : String := %s\ndef wrapMask : Nat := %d\n\n", strconv.Quote(wrapExpr), wrapMask)
+	fmt.Fprintf(&b, "def wrapUsesHasTryBlock : Bool := %v\ndef wrapMask : Nat := %d\n\n", strings.Contains(wrapExpr, "ContractHasTryBlock()") && strings.Contains(wrapExpr, "&&"), wrapMask)
 	fmt.Fprintf(&b, "/-- vm.go unloadContext: third argument of the context-unload callback. -/\ndef commitExpr : String := %s\n\n", strconv.Quote(commitExpr))
 	fmt.Fprintf(&b, "/-- vm.go ContractHasTryBlock: conditions on the exception-handling state. -/\ndef hasTryConds : List String := %s\n\n", strList(hasTryConds))
 	fmt.Fprintf(&b, "/-- vm.go handleException: conditions on the exception-handling state, in source order. -/\ndef handlerConds : List String := %s\n\n", strList(skipConds))
